@@ -44,3 +44,39 @@ package cisco
 //vc:maprange[C16] postprocessParsed$2 1 "for _, l := range lookup[prefix]" accumulate rewrites each visited command from its own text
 //vc:maprange[C16] postprocessParsed$3 1 "for _, l := range lookup[prefix]" accumulate rewrites each visited command from its own text
 //vc:maprange[C16] sortGroups 1 "object-group" accumulate sorts the sub commands of the visited group only
+
+// ---- C18: merge of raw / IPv6 ACLs ----
+//vc:spec func isPermitIOS(c *cmd) bool
+//vc:spec func isPermitASA(c *cmd) bool
+
+// ghost copies of the insert position found for the [APPEND] block
+//vc:ghost var mergeI int
+//vc:ghost var mergeLen int
+
+// Result: prepend ++ Netspoc lines up to and including the last permit ++ APPEND lines ++ rest.
+//vc:func mergeIOSACLs
+//vc:  init mergeI = 0
+//vc:  init mergeLen = 0
+//vc:  invariant[C18] 3 "for ; i >= 0; i--" -1 <= i && i < len(acl) && (forall j int :: i < j && j < len(acl) ==> !strings.HasPrefix(acl[j].parsed, "permit "))
+//vc:  assert[C18] at "acl = append(acl[:i], append(appendACL, acl[i:]...)...)" @appendAfterLastPermit 0 <= i && i <= len(acl) && (i == 0 || strings.HasPrefix(acl[i - 1].parsed, "permit ")) && (forall j int :: i <= j && j < len(acl) ==> !strings.HasPrefix(acl[j].parsed, "permit "))
+//vc:  assign at "acl = append(acl[:i], append(appendACL, acl[i:]...)...)" mergeI = i
+//vc:  assign at "acl = append(acl[:i], append(appendACL, acl[i:]...)...)" mergeLen = len(acl)
+//vc:  ensures[C18] @appendBlockInserted len(appendACL) > 0 ==> len(b0.sub) == mergeLen + len(appendACL) && (forall j int :: mergeI <= j && j < mergeI + len(appendACL) ==> b0.sub[j] == appendACL[j - mergeI])
+//vc:  ensures[C18] @restKeptBehindAppend len(appendACL) > 0 ==> (forall j int :: mergeI + len(appendACL) <= j && j < len(b0.sub) ==> !strings.HasPrefix(b0.sub[j].parsed, "permit "))
+//vc:  ensures[C18] @prependFirst (forall j int :: 0 <= j && j < len(prependACL) && (len(appendACL) == 0 || j < mergeI) ==> b0.sub[j] == prependACL[j])
+//vc:  ensures[C18] @nothingLost len(b0.sub) == len(prependACL) + len(appendACL) + ite(len(old(ab.aCmds)) > 0, len(old(ab.aCmds[0].sub)), 0)
+
+// ASA: prepend ++ Netspoc lines (a terminating 'deny ip any6 any6' of the other
+// part goes to the end) and the [APPEND] block directly behind the last permit line.
+//vc:func mergeASAACLs
+// MergeSpoc creates a.lookup[prefix] for every prefix of the other part before merging (its first loop)
+//vc:  requires prefix in ab.a.lookup && ab.a.lookup[prefix] != nil
+//vc:  init mergeI = 0
+//vc:  init mergeLen = 0
+//vc:  invariant[C18] 2 "for ; i >= 0; i--" -1 <= i && i < len(acl) && (forall j int :: i < j && j < len(acl) ==> !strings.Contains(acl[j].parsed, "$NAME extended permit"))
+//vc:  assert[C18] at "acl = append(acl[:i], append(appendACL, acl[i:]...)...)" @appendAfterLastPermit 0 <= i && i <= len(acl) && (i == 0 || strings.Contains(acl[i - 1].parsed, "$NAME extended permit")) && (forall j int :: i <= j && j < len(acl) ==> !strings.Contains(acl[j].parsed, "$NAME extended permit"))
+//vc:  assign at "acl = append(acl[:i], append(appendACL, acl[i:]...)...)" mergeI = i
+//vc:  assign at "acl = append(acl[:i], append(appendACL, acl[i:]...)...)" mergeLen = len(acl)
+//vc:  ensures[C18] @appendBlockInserted len(appendACL) > 0 ==> len(ab.a.lookup[prefix][name]) == mergeLen + len(appendACL) && (forall j int :: mergeI <= j && j < mergeI + len(appendACL) ==> ab.a.lookup[prefix][name][j] == appendACL[j - mergeI])
+//vc:  ensures[C18,slow] @restKeptBehindAppend len(appendACL) > 0 ==> (forall j int :: mergeI + len(appendACL) <= j && j < len(ab.a.lookup[prefix][name]) ==> !strings.Contains(ab.a.lookup[prefix][name][j].parsed, "$NAME extended permit"))
+//vc:  ensures[C18,slow] @prependFirst (forall j int :: 0 <= j && j < len(prependACL) && (len(appendACL) == 0 || j < mergeI) ==> ab.a.lookup[prefix][name][j] == prependACL[j])
